@@ -8,14 +8,18 @@ import (
 	"math/big"
 	"os"
 	"strings"
+	"time"
 
 	"golang.org/x/tools/go/ssa"
 )
 
 type Engine struct {
-	prog    *ssa.Program
-	solver  *Solver
-	globals map[*ssa.Global]*Value
+	unwindBound   int
+	loopExitCache map[*ssa.If]int
+	pathDeadline  time.Time
+	prog          *ssa.Program
+	solver        *Solver
+	globals       map[*ssa.Global]*Value
 	// path state
 	dec     []int
 	opts    [][]int
@@ -71,6 +75,10 @@ type elemRef struct {
 
 type pathAbort struct{ why string }
 
+// unwindAbort ends a path whose loop (one conditional branch of one function activation) was decided more often
+// than the unwinding bound, or that ran past the run's wall limit; the run is reported truncated, never clean.
+type unwindAbort struct{ why string }
+
 type frame struct {
 	fn        *ssa.Function
 	env       map[ssa.Value]Value
@@ -80,6 +88,7 @@ type frame struct {
 	result    Value
 	panicking *goPanic
 	recovered bool
+	unwind    map[*ssa.If]int
 }
 
 func newEngine(prog *ssa.Program) *Engine {
@@ -212,6 +221,104 @@ func (e *Engine) nextPath() bool {
 	}
 	return false
 }
+
+// loopExit tells which successor (0/1) of a conditional branch leaves the innermost natural loop around it, or
+// -1. The depth-first search takes that side first, so a loop whose condition stays symbolic is explored
+// shortest iteration count first and the unwinding bound cuts the longest paths, not the first one.
+func (e *Engine) loopExit(in *ssa.If) int {
+	if v, ok := e.loopExitCache[in]; ok {
+		return v
+	}
+	b := in.Block()
+	res := -1
+	best := -1
+	for _, h := range b.Parent().Blocks {
+		if !h.Dominates(b) {
+			continue
+		}
+		// natural loop of header h: blocks that reach a back edge n->h without passing h
+		body := map[*ssa.BasicBlock]bool{h: true}
+		var stack []*ssa.BasicBlock
+		for _, n := range h.Preds {
+			if h.Dominates(n) && !body[n] {
+				body[n] = true
+				stack = append(stack, n)
+			}
+		}
+		if len(stack) == 0 && !func() bool {
+			for _, n := range h.Preds {
+				if n == h {
+					return true
+				}
+			}
+			return false
+		}() {
+			continue
+		}
+		for len(stack) > 0 {
+			n := stack[len(stack)-1]
+			stack = stack[:len(stack)-1]
+			for _, q := range n.Preds {
+				if !body[q] {
+					body[q] = true
+					stack = append(stack, q)
+				}
+			}
+		}
+		if !body[b] {
+			continue
+		}
+		// innermost = smallest body
+		if best >= 0 && len(body) >= best {
+			continue
+		}
+		// distance (in blocks) from each successor to the outside of the loop
+		dist := func(from *ssa.BasicBlock) int {
+			seen := map[*ssa.BasicBlock]bool{from: true}
+			cur := []*ssa.BasicBlock{from}
+			for d := 0; len(cur) > 0; d++ {
+				var nxt []*ssa.BasicBlock
+				for _, x := range cur {
+					if !body[x] {
+						return d
+					}
+					for _, y := range x.Succs {
+						if !seen[y] {
+							seen[y] = true
+							nxt = append(nxt, y)
+						}
+					}
+				}
+				cur = nxt
+			}
+			return 1 << 30
+		}
+		d0, d1 := dist(b.Succs[0]), dist(b.Succs[1])
+		best = len(body)
+		switch {
+		case d0 < d1:
+			res = 0
+		case d1 < d0:
+			res = 1
+		default:
+			res = -1
+		}
+	}
+	if e.loopExitCache == nil {
+		e.loopExitCache = map[*ssa.If]int{}
+	}
+	e.loopExitCache[in] = res
+	return res
+}
+
+// branchPrefer is branch with the false side explored first when falseFirst is set.
+func (e *Engine) branchPrefer(c Term, falseFirst bool) bool {
+	if !falseFirst {
+		return e.branch(c)
+	}
+	return !e.branch(Not(c))
+}
+
 func (e *Engine) branch(c Term) bool {
 	if c.IsConst() {
 		return c.True()
@@ -552,7 +659,19 @@ func (e *Engine) runBlocks(fr *frame) {
 				next = b.Succs[0]
 			case *ssa.If:
 				c := e.get(fr, in.Cond).(Term)
-				if e.branch(c) {
+				if !c.IsConst() {
+					if fr.unwind == nil {
+						fr.unwind = map[*ssa.If]int{}
+					}
+					fr.unwind[in]++
+					if fr.unwind[in] > e.unwindBound {
+						panic(unwindAbort{fmt.Sprintf("unwinding bound %d exceeded in %s", e.unwindBound, fr.fn.String())})
+					}
+					if !e.pathDeadline.IsZero() && fr.unwind[in]&15 == 0 && time.Now().After(e.pathDeadline) {
+						panic(unwindAbort{"wall limit reached inside a path in " + fr.fn.String()})
+					}
+				}
+				if e.branchPrefer(c, !c.IsConst() && e.loopExit(in) == 1) {
 					next = b.Succs[0]
 				} else {
 					next = b.Succs[1]
